@@ -140,6 +140,39 @@ def run(ctx):
                             why = 'the big-integer recomputation in the overflow branch of %s uses %s' % (chk[0]['method'], ops)
                     elif tri and in_first:
                         cls = 'failure branch of try_into::<SmallInt>'
+                # (a') the same written as a match / if-let / let-else: the constructor sits in the None / Err(..) arm (or the else
+                #      branch) of a test whose scrutinee is checked_X(..) / try_into()
+                if cls is None and not why:
+                    for p_ in ps:
+                        scrut = fail_side = None
+                        if p_.get('k') == 'match':
+                            for a_ in p_['arms']:
+                                if find_nodes(a_['body'], lambda y: y is n):
+                                    ap_ = pat_str(a_['pat'])
+                                    if re.match(r'^(None|Err\(.*\))$', ap_):
+                                        scrut, fail_side = p_['expr'], True
+                        elif p_.get('k') == 'if' and p_['cond'].get('k') == 'letexpr' and p_.get('else') is not None and find_nodes(p_['else'], lambda y: y is n):
+                            if re.match(r'^(Some|Ok)\(', pat_str(p_['cond']['pat'])):
+                                scrut, fail_side = p_['cond']['expr'], True
+                        if not fail_side or scrut is None:
+                            continue
+                        chk = [x for x, _ in find_nodes(scrut, lambda y: y.get('k') == 'mcall' and y['method'] in CHECKED)]
+                        tri = [x for x, _ in find_nodes(scrut, lambda y: y.get('k') == 'mcall' and y['method'] == 'try_into')]
+                        neg = [x for x, _ in find_nodes(scrut, lambda y: y.get('k') == 'mcall' and y['method'] in ('checked_neg', 'checked_abs'))]
+                        if neg and not chk:
+                            # -x / |x| of the one value whose negation does not fit: recomputed on the big form
+                            if find_nodes(arg, lambda y: (y.get('k') == 'unary' and y['op'] == '-') or (y.get('k') == 'mcall' and y['method'] in ('neg', 'abs'))):
+                                cls = 'overflow arm of %s, recomputed on the big form' % neg[0]['method']
+                            continue
+                        if chk:
+                            want = CHECKED[chk[0]['method']]
+                            ops = [x['op'] for x, _ in find_nodes(arg, lambda y: y.get('k') == 'binary')] + [x['method'] for x, _ in find_nodes(arg, lambda y: y.get('k') == 'mcall' and y['method'] == 'pow')]
+                            if want in ops and all(o == want for o in ops if o in ARITH_OPS or o == 'pow'):
+                                cls = 'overflow arm of %s, recomputed with %s' % (chk[0]['method'], want)
+                            else:
+                                why = 'the big-integer recomputation in the overflow arm of %s uses %s' % (chk[0]['method'], ops)
+                        elif tri:
+                            cls = 'failure arm of try_into::<SmallInt>'
                 # (b) arm guarded by the SmallInt::MIN pattern
                 if cls is None and not why:
                     arm = None
@@ -271,38 +304,39 @@ def run(ctx):
             r6.fail('int/%s' % name, '%s:%d' % (g['file'], g['line']), 'builtin `%s` on int applies %s instead of `%s`' % (name, ops, WANT[name]))
     r6.need(10)
 
-    # ---------------- R14.5 comparison of mixed representations (relies on the canonical form; arms must mirror each other)
+    # ---------------- R14.5 comparison of mixed representations, decided by abstract evaluation of Ord::cmp on the MIR:
+    # a small value against a big positive one is Less, against a big negative one Greater, and mirrored
     r5 = ctx.rule('R14.5', 'Ord::cmp mixed arms: small vs big decided by the sign of the big operand, mirrored')
-    for im in impls:
-        if trait_name(im) != 'Ord':
-            continue
-        for fn in fns_of(im):
-            if fn['name'] != 'cmp':
-                continue
-            got = {}
-            for m, _ in find_nodes(fn['body'], lambda y: y.get('k') == 'match'):
-                for a in m['arms']:
-                    ap = pat_str(a['pat'])
-                    mixed = re.match(r'^\((Self|LazyBigint)::(Short|Long)\((\w+)\), (Self|LazyBigint)::(Short|Long)\((\w+)\)\)$', ap)
-                    if not mixed or mixed.group(2) == mixed.group(5):
-                        continue
-                    ifs = [x for x, _ in find_nodes(a['body'], lambda y: y.get('k') == 'if')]
-                    if len(ifs) != 1:
-                        got[ap] = None
-                        continue
-                    i = ifs[0]
-                    cond = i['cond']
-                    big = mixed.group(3) if mixed.group(2) == 'Long' else mixed.group(6)
-                    cm = cond.get('method') if cond.get('k') == 'mcall' and cond['recv'].get('path') == big else None
-                    def leaf(b):
-                        ps_ = [x['path'].split('::')[-1] for x, _ in find_nodes(b, lambda y: y.get('k') == 'path' and y['path'].startswith('Ordering::'))]
-                        return ps_[0] if len(ps_) == 1 else None
-                    got[(mixed.group(2), mixed.group(5))] = (cm, leaf(i['then']), leaf(i['else']))
-            want = {('Short', 'Long'): ('is_positive', 'Less', 'Greater'), ('Long', 'Short'): ('is_positive', 'Greater', 'Less')}
-            alt = {('Short', 'Long'): ('is_negative', 'Greater', 'Less'), ('Long', 'Short'): ('is_negative', 'Less', 'Greater')}
-            for k in want:
-                ok = got.get(k) in (want[k], alt[k])
-                r5.inst({'arm': k, 'shape': got.get(k)}, ok=ok, kind=k)
-                if not ok:
-                    r5.fail('Ord::cmp/%s-%s' % k, '%s:%d' % (FILE, fn['line']), 'mixed-representation comparison %s vs %s is %s; expected the sign test of the big operand with %s' % (k[0], k[1], got.get(k), want[k]))
-    r5.need(2)
+    from .lib import absint
+    from .lib.facts import strip_generics, callee_name
+    cb = ctx.mir.find('<util::lazy_bigint::LazyBigint as std::cmp::Ord>::cmp')
+    adt = ctx.mir.adts.get('util::lazy_bigint::LazyBigint')
+    if len(cb) != 1 or adt is None:
+        r5.fail('anchor/cmp', FILE, 'Ord::cmp for LazyBigint / the LazyBigint enum not found in the MIR')
+    else:
+        vi = {v['name']: i for i, v in enumerate(adt['variants'])}
+
+        def val(kind):
+            return ('enum', vi['Short'], 'Short', ('S',)) if kind == 'S' else ('enum', vi['Long'], 'Long', (kind,))
+
+        def oracle(tm, vals, env):
+            nm = strip_generics(callee_name(tm) or '')
+            a = absint.deref(None, env, vals[0]) if vals else absint.UNKNOWN
+            if a in ('B+', 'B-'):
+                if nm.endswith('Signed>::is_positive') or nm.endswith('::is_positive'):
+                    return a == 'B+'
+                if nm.endswith('Signed>::is_negative') or nm.endswith('::is_negative'):
+                    return a == 'B-'
+            return absint.UNKNOWN
+        want = {('S', 'B+'): 'Less', ('S', 'B-'): 'Greater', ('B+', 'S'): 'Greater', ('B-', 'S'): 'Less'}
+        for (x, y), w in sorted(want.items()):
+            env0 = {'#self': val(x), '#other': val(y), '_1': ('ref', '#self'), '_2': ('ref', '#other')}
+            rs = absint.returns(ctx.mir, cb[0], env0, oracle)
+            got = sorted(r[2] if isinstance(r, tuple) and len(r) >= 3 and r[0] == 'adt' and r[1] == 'Ordering' else 'unrecognised' for r in rs)
+            ok = got == [w]
+            names = {'S': 'a small value', 'B+': 'a big positive value', 'B-': 'a big negative value'}
+            r5.inst({'self': names[x], 'other': names[y], 'cmp_returns': got, 'expected': w}, ok=ok, kind=(x, y))
+            if not ok:
+                r5.fail('Ord::cmp/%s-%s' % (('Short', 'Long') if x == 'S' else ('Long', 'Short')), '%s:%d' % (FILE, int(cb[0].span.split(':')[1])),
+                        'comparing %s with %s returns %s; expected %s (decided by the sign of the big operand)' % (names[x], names[y], got, w))
+    r5.need(4)
